@@ -819,6 +819,13 @@ fn case_repeat(kv: &Kv) -> String {
             if got1 != want || got2 != want || got3 != want {
                 all_same = false;
             }
+            let mut hs = similar::algorithms::Capture::new();
+            similar::algorithms::diff_slices(alg, &mut hs, &old[..], &new[..]).unwrap();
+            let mut hd = similar::algorithms::Capture::new();
+            similar::algorithms::diff(alg, &mut hd, &old[..], 0..old.len(), &new[..], 0..new.len()).unwrap();
+            if hs.ops() != hd.ops() {
+                all_same = false;
+            }
         }
     }
     // relabellings: order preserving (x -> 3x+7), order reversing (x -> M - x), hash scrambling
@@ -912,6 +919,36 @@ fn case_plumb(kv: &Kv) -> String {
                 let _ = c2.diff_chars(&o[..], &n[..]);
             });
             rel(seen, t0, t1)
+        }
+        // the wall-clock comparison itself (no virtual clock installed): a deadline already in the past behaves like
+        // a clock that is expired at every probe, one far in the future like a clock that never expires
+        "real_past" | "real_future" => {
+            let past = entry == "real_past";
+            let dlv = if past {
+                let t = Instant::now();
+                std::thread::sleep(Duration::from_millis(3));
+                t
+            } else {
+                Instant::now() + Duration::from_secs(3600)
+            };
+            let got = similar::capture_diff_slices_deadline(alg, &oi[..], &ni[..], Some(dlv));
+            let td = {
+                let mut c = TextDiff::configure();
+                c.algorithm(alg);
+                c.deadline(dlv);
+                c.diff_chars(&o[..], &n[..]).ops().to_vec()
+            };
+            similar::verif::clock_install(if past { Some(0) } else { None });
+            let far = Instant::now() + Duration::from_secs(7200);
+            let want = similar::capture_diff_slices_deadline(alg, &oi[..], &ni[..], Some(far));
+            let want_td = {
+                let mut c = TextDiff::configure();
+                c.algorithm(alg);
+                c.deadline(far);
+                c.diff_chars(&o[..], &n[..]).ops().to_vec()
+            };
+            similar::verif::clock_remove();
+            fmt(true, Some(got == want && td == want_td), None, None)
         }
         // both setters on one builder: the one called LAST decides
         "deadline_then_timeout" => {
